@@ -1115,6 +1115,13 @@ class Data(Container, NetCDFHDF5, Files, core.Data):
                 for i, j in zip(
                     itertools.product(*indices1), itertools.product(*indices2)
                 ):
+                    # A single-element list index (see (*) above) is
+                    # applied as a size 1 slice, so that two or more
+                    # of them still index orthogonally.
+                    i = tuple(
+                        slice(x[0], x[0] + 1) if isinstance(x, list) else x
+                        for x in i
+                    )
                     array[i] = value[j]
 
     @property
